@@ -103,6 +103,7 @@ func oracleTx(c *Ctx, v *types.TxData) (text []byte) {
 	if back.SerializedSize != size {
 		failLimited(c, "tx-serialized-size", fmt.Sprintf("recorded %d encoded %d", back.SerializedSize, size))
 	}
+	retain(c, "tx", got, func() string { return dTx(&back) })
 	re, err := back.MarshalText()
 	if err != nil || !bytes.Equal(re, b) {
 		failLimited(c, "tx-reencoding-differs", short(string(b)+" -> "+string(re)))
@@ -156,6 +157,7 @@ func oracleHeader(c *Ctx, h *types.BlockHeader) (text []byte) {
 		failLimited(c, "hdr-roundtrip-differs", short("want "+want+" got "+got))
 		return
 	}
+	retain(c, "hdr", dHeader(&back), func() string { return dHeader(&back) })
 	if re, err := back.MarshalText(); err != nil || !bytes.Equal(re, b) {
 		failLimited(c, "hdr-reencoding-differs", short(string(b)))
 	}
@@ -223,6 +225,10 @@ func oracleBlock(c *Ctx, blk *types.Block, flag int) (text []byte) {
 	}
 	if flag != types.SerBlockTransactions && blk.Hash() != back.Hash() {
 		failLimited(c, "blk-hash-changes", short(string(b)))
+	}
+	{
+		g := dBlock(flag, &back, nil)
+		retain(c, "blk", g, func() string { return dBlock(flag, &back, nil) })
 	}
 	for i, t := range back.Transactions {
 		if t.Tx == nil || t.ID != types.NewTx(blk.Transactions[i].TxData).ID {
@@ -322,4 +328,45 @@ func runC04(c *Ctx) {
 		}
 		oracle()
 	}
+}
+
+// Retention oracle: a value obtained by deserialisation must STAY equal to what was decoded
+// while other values are serialised and deserialised afterwards (a decoder handing out
+// slices of a buffer it recycles passes every immediate round-trip comparison). The last
+// few decoded values are kept and dumped again after later operations.
+type retained struct {
+	kind, want string
+	dump       func() string
+	age        int
+}
+
+var retainedVals []*retained
+
+func retain(c *Ctx, kind, want string, dump func() string) {
+	checkRetained(c)
+	retainedVals = append(retainedVals, &retained{kind: kind, want: want, dump: dump})
+	if len(retainedVals) > 6 {
+		retainedVals = retainedVals[1:]
+	}
+}
+
+func checkRetained(c *Ctx) {
+	keep := retainedVals[:0]
+	for _, r := range retainedVals {
+		r.age++
+		got := func() (s string) {
+			defer func() {
+				if rec := recover(); rec != nil {
+					s = "panic: " + fmt.Sprint(rec)
+				}
+			}()
+			return r.dump()
+		}()
+		if got != r.want {
+			failLimited(c, r.kind+"-decoded-value-changes-later", short(fmt.Sprintf("after %d later operations: decoded as %s, now %s", r.age, r.want, got)))
+			continue
+		}
+		keep = append(keep, r)
+	}
+	retainedVals = keep
 }
